@@ -1,6 +1,7 @@
 (* driver for the extracted C10 model: same scripts and canonical lines as comp/radixconc/harness.cpp.
    The writer is the sequential composition of the micro-step programs; every operation appends its messages
-   (op_msgs, orders = Gen.RadixConcOrders.actual) to the write log.  After every operation:
+   (op_msgs, with the orders the model was written against: RadixConc/ConcSkel.c09_orders; the generated
+   obligation actual_embedded ties them to the source) to the write log.  After every operation:
      - "r <root>" / "n <id> ..." lines are computed FROM THE LOG (last message per location) for the nodes the
        operation wrote to, and printed when they changed;
      - "f <k> <result>" is the model READER (find, one load per step over the release/acquire memory) run to
@@ -43,7 +44,7 @@ let body lines =
     if not !stopped then begin
       if not (wop_okb !s w) then begin print_endline "assert"; stopped := true end
       else begin
-        let ms = op_msgs actual esz lsz !s w in
+        let ms = op_msgs c09_orders esz lsz !s w in
         lg := !lg @ ms;
         s := op_next esz lsz !s w;
         print_endline "ok";
@@ -59,7 +60,7 @@ let body lines =
             print_endline t; Hashtbl.replace shown id t end) touched;
         let ks = if List.exists (fun q -> i64_of_n q = i64_of_n k) probes then probes else probes @ [k] in
         List.iter (fun q ->
-          print_endline (Printf.sprintf "f %s %s" (string_of_n q) (show_res (find_sc actual !lg q)))) ks
+          print_endline (Printf.sprintf "f %s %s" (string_of_n q) (show_res (find_sc c09_orders !lg q)))) ks
       end
     end) ops
 
